@@ -433,12 +433,14 @@ def plans(quick):
     if quick:
         return [("rall", dict(big, kinds="MCAllKinds", rels="MCAllRels", thinfrom=3, thinmod=8)),
                 ("rimpl", dict(big, kinds="MCKindsImpl", rels="MCRelsImpl", thinfrom=4, thinmod=8)),
-                ("rfld", dict(big, kinds="MCKindsFld", rels="MCRelsFld", thinfrom=4, thinmod=8))]
+                ("rfld", dict(big, kinds="MCKindsFld", rels="MCRelsFld", thinfrom=4, thinmod=8)),
+                ("rconv", dict(big, maxedge=2, kinds="MCKindsConv", rels="MCRelsConv", thinfrom=6, thinmod=4))]
     return [("small", dict(maxobj=3, maxedge=2, exkinds="MCAllKindSet", root=False, kinds="MCAllKinds", rels="MCAllRels", thinfrom=99, thinmod=1)),
             ("rall", dict(big, kinds="MCAllKinds", rels="MCAllRels", thinfrom=3, thinmod=3)),
             ("rimpl", dict(big, kinds="MCKindsImpl", rels="MCRelsImpl", thinfrom=4, thinmod=3)),
             ("rfld", dict(big, kinds="MCKindsFld", rels="MCRelsFld", thinfrom=4, thinmod=3)),
-            ("rval", dict(big, kinds="MCKindsVal", rels="MCRelsVal", thinfrom=4, thinmod=3))]
+            ("rval", dict(big, kinds="MCKindsVal", rels="MCRelsVal", thinfrom=4, thinmod=3)),
+            ("rconv", dict(big, maxedge=2, kinds="MCKindsConv", rels="MCRelsConv", thinfrom=6, thinmod=2))]
 
 
 def generate(ctx):
@@ -463,28 +465,49 @@ def mixed(c):
 
 
 def features(c):
-    ks = sorted(set(o["k"] for o in c["objs"]))
-    rs = sorted(set(e["r"] for e in c["edges"]))
-    f = set(("k", k) for k in ks) | set(("r", r) for r in rs)
-    f |= set(("kr", k, r) for k in ks for r in rs)
-    f |= set(("rr", a, b) for a in rs for b in rs if a < b)
-    f |= set(("ex", o["k"]) for o in c["objs"] if o["ex"])
+    """What a graph exercises: kinds, relations, each reference with the kind and exported flag of its
+    target(s), pairs of such references, and the member structure behind the relations with a narrow
+    enabling condition (struct conversion, interface assignment, promoted selection)."""
+    o = [None] + c["objs"]
+    ks = sorted(set(x["k"] for x in c["objs"]))
+    f = set(("k", k) for k in ks) | set(("ex", x["k"]) for x in c["objs"] if x["ex"])
+    det = []
+    for e in c["edges"]:
+        d = (e["r"], o[e["b"]]["k"], o[e["b"]]["ex"]) + ((o[e["c"]]["k"], o[e["c"]]["ex"]) if e["c"] else ())
+        if e["r"] == "sconv":
+            d += (tuple(sorted(x["ex"] for x in c["objs"] if x["k"] == "field" and x["ow"] == e["b"])),)
+        if e["r"] == "assign":
+            d += (tuple(sorted((x["k"], x["ex"]) for x in c["objs"] if x["k"] in ("methv", "methp", "embed") and x["ow"] == e["b"])),)
+        det.append(d)
+        f.add(("e",) + d)
+        f.add(("r", e["r"]))
+        f.add(("ah", e["r"], o[e["a"]]["k"], o[e["a"]]["ex"]))
+    for i in range(len(det)):
+        for j in range(i + 1, len(det)):
+            f.add(("e2",) + tuple(sorted((det[i], det[j]), key=repr)))
     return f
 
 
-def select(ctx, cases, n, cover=2):
-    """A feature cover (every kind, relation, kind x relation and relation pair `cover` times, preferring
-    graphs for which the rule model predicts mixed verdicts) plus a seeded sample."""
+RARE = ("sconv", "assign", "psel", "inst")
+
+
+def select(ctx, cases, n, cover=2, rare_cover=10):
+    """A feature cover (every kind, relation, kind x relation and relation pair `cover` times - `rare_cover`
+    times when a relation with a narrow enabling condition is involved -, preferring graphs for which the
+    rule model predicts mixed verdicts) plus a seeded sample."""
+    def need(f):
+        return rare_cover if any(r in repr(f) for r in RARE) else cover
+
     idx = list(range(len(cases)))
     ctx.rng.shuffle(idx)
-    idx.sort(key=lambda i: (-int(mixed(cases[i])), -int(len(cases[i]["edges"]) > 0)))
+    idx.sort(key=lambda i: -len(cases[i]["edges"]))   # stable: graphs with more references first
     from collections import Counter
     cov, chosen, chosen_set = Counter(), [], set()
     for i in idx:
         if len(chosen) >= n * 2 // 3:
             break
         fs = features(cases[i])
-        if any(cov[f] < cover for f in fs):
+        if any(cov[f] < need(f) for f in fs):
             chosen.append(i)
             chosen_set.add(i)
             for f in fs:
